@@ -342,21 +342,31 @@ func (r *RectClip64) executeInternal(path Path64) {
 		if startingLoc == Inside {
 			return
 		}
-		if !r.pathBounds.Contains(r.rect) || !r.path1ContainsPath2(path, r.rectPath) {
+		// a path that never enters the rectangle goes round it w times; even-odd containment
+		// misses an even w
+		w := windingNumberAt(r.mp, path)
+		if !r.pathBounds.Contains(r.rect) || (w == 0 && !r.path1ContainsPath2(path, r.rectPath)) {
 			return
 		}
 
 		startLocsClockwise := startLocsAreClockwise(startLocs)
-		for j := 0; j < 4; j++ {
-			var k int
-			if startLocsClockwise {
-				k = j
-			} else {
-				k = 3 - j
-			}
+		if w != 0 {
+			startLocsClockwise = w > 0
+		} else {
+			w = 1
+		}
+		for ; w != 0; w -= sign(w) {
+			for j := 0; j < 4; j++ {
+				var k int
+				if startLocsClockwise {
+					k = j
+				} else {
+					k = 3 - j
+				}
 
-			r.add(r.rectPath[k], false)
-			addToEdge(&r.edges[k*2], r.results[0])
+				r.add(r.rectPath[k], false)
+				addToEdge(&r.edges[k*2], r.results[0])
+			}
 		}
 	} else if loc != Inside && (loc != firstCross || len(startLocs) > 2) {
 		if len(startLocs) > 0 {
@@ -958,6 +968,29 @@ func hasHorzOverlap(left1, right1, left2, right2 Point64) bool {
 
 func areOpposites(prev, curr Location) bool {
 	return int(math.Abs(float64(int(prev)-int(curr)))) == 2
+}
+
+// windingNumberAt returns the winding number of the closed path around pt (pt not on the path).
+func windingNumberAt(pt Point64, path Path64) int {
+	w := 0
+	for i, a := range path {
+		b := path[(i+1)%len(path)]
+		if a.Y <= pt.Y {
+			if b.Y > pt.Y && CrossProduct(a, b, pt) > 0 {
+				w++
+			}
+		} else if b.Y <= pt.Y && CrossProduct(a, b, pt) < 0 {
+			w--
+		}
+	}
+	return w
+}
+
+func sign(v int) int {
+	if v < 0 {
+		return -1
+	}
+	return 1
 }
 
 func startLocsAreClockwise(startLocs []Location) bool {
